@@ -83,26 +83,36 @@ def jsonable(x):
     return repr(x)
 
 
-class CaseTimeout(Exception):
-    pass
+class CaseTimeout(BaseException):
+    """Not an Exception on purpose: `except Exception` in a check must not swallow it."""
 
 
 class alarm:
-    """Per-case wall-clock alarm: a hang becomes a reported violation."""
+    """Per-case alarm: a hang becomes a reported violation.  The budget is CPU time of this process
+    (ITIMER_PROF), so a loaded machine does not turn a slow case into an alarm; a wall-clock backstop of
+    20 x the budget (at least 60 s) covers waits that burn no CPU."""
 
     def __init__(self, seconds: float):
         self.seconds = seconds
 
     def _raise(self, *_):
-        raise CaseTimeout(f"no result after {self.seconds}s")
+        raise CaseTimeout(f"no result after {self.seconds}s of CPU time")
 
     def __enter__(self):
-        self.old = signal.signal(signal.SIGALRM, self._raise)
-        signal.setitimer(signal.ITIMER_REAL, self.seconds)
+        self.old = (signal.signal(signal.SIGPROF, self._raise), signal.signal(signal.SIGALRM, self._raise))
+        # alarms nest (a check may bound a single library call inside the per-case budget): remember what was left
+        self.left = (signal.setitimer(signal.ITIMER_PROF, self.seconds)[0],
+                     signal.setitimer(signal.ITIMER_REAL, max(60.0, 20 * self.seconds))[0])
 
     def __exit__(self, *exc):
+        signal.setitimer(signal.ITIMER_PROF, 0)
         signal.setitimer(signal.ITIMER_REAL, 0)
-        signal.signal(signal.SIGALRM, self.old)
+        signal.signal(signal.SIGPROF, self.old[0])
+        signal.signal(signal.SIGALRM, self.old[1])
+        if self.left[0] > 0:
+            signal.setitimer(signal.ITIMER_PROF, self.left[0])
+        if self.left[1] > 0:
+            signal.setitimer(signal.ITIMER_REAL, self.left[1])
         return False
 
 
@@ -134,7 +144,7 @@ def _run_one(args):
     except CaseTimeout:
         return idx, {"hang": True, "violations": [V(
             "harness/case-did-not-terminate",
-            f"the library did not finish this case within {CASE_TIMEOUT:.0f} s (normal cost: milliseconds "
+            f"the library did not finish this case within {CASE_TIMEOUT:.0f} s of CPU time (normal cost: milliseconds "
             "to seconds)", case=case)]}
     except Exception as e:  # an unexpected exception in the harness or library is never silent
         return idx, {"violations": [V("harness/unexpected-exception",
@@ -265,7 +275,8 @@ def write_replay(prop, v) -> str:
     blob = json.dumps({"property": prop, **v}, indent=1, sort_keys=True)
     sha = hashlib.sha1(json.dumps({"c": v["case"], "o": v["oracle"]}, sort_keys=True)
                        .encode()).hexdigest()[:12]
-    d = VERIF / "replays" / prop
+    # runs against another tree (mutants, audits) keep their replays out of /verif
+    d = (VERIF if str(REPO) == "/repo" else Path(os.environ.get("VERIF_EVIDENCE_DIR", "/tmp/verif-evidence"))) / "replays" / prop
     d.mkdir(parents=True, exist_ok=True)
     p = d / f"{sha}.json"
     p.write_text(blob + "\n")
